@@ -17,7 +17,7 @@ ASSUMPTIONS = [
 ]
 RULE = {
     "quick": "every network with <=2 reactions over {A,B,C}, coefficients {0,1,2}, one per species-permutation class, + every digraph of unimolecular reactions on 4 species with <=5 arcs (1 585; thorough: all 4 095) + textbook networks; each analysed from "
-    "the hypergraph and from its exported bipartite graph (string and integer ids); non-trivial = at least 2 linkage classes or deficiency > 0 or not weakly reversible",
+    "the hypergraph from its exported bipartite graph (string and integer ids, and inserted in the opposite order) and with an extra registered species that occurs in no reaction; the analyser object asked a second time and through the convenience wrapper; non-trivial = at least 2 linkage classes or deficiency > 0 or not weakly reversible",
     "thorough": "all 266 084 labelled 2-reaction networks + all 3-reaction networks with coefficients {0,1} + 4 species x 2 reactions x {0,1} + textbook",
 }
 
